@@ -362,3 +362,29 @@ MUTANTS += [
     m("c17-labels-dropped", ["C17"], F, 'vdims = xa.vdims.values if "vdims" in xa.coords else None', "vdims = None"),
     m("c17-scalar-not-squeezed", ["C17"], F, "field_array = np.squeeze(self.array, axis=-1)", "field_array = np.squeeze(self.array)"),
 ]
+
+MUTANTS += [
+    # ------------------------------------------------------------------ C19
+    m("c19-demag-unpermuted-cell", ["C19"], T, "_N_element(y, z, x, (dy, dz, dx), _f),  # Nyy", "_N_element(y, z, x, (dx, dy, dz), _f),  # Nyy"),
+    m("c19-demag-xz-perm", ["C19"], T, "_N_element(x, z, y, (dx, dz, dy), _g),  # Nxz", "_N_element(x, z, y, (dx, dy, dz), _g),  # Nxz"),
+    m("c19-demag-zz-function", ["C19"], T, "_N_element(z, x, y, (dz, dx, dy), _f),  # Nzz", "_N_element(z, x, y, (dz, dx, dy), _g),  # Nzz"),
+    m("c19-demag-offset-axis", ["C19"], T, "y + (i[1] - i[4]) * dy", "y + (i[1] - i[4]) * dx"),
+    m("c19-demag-norm", ["C19"], T, "return -value / (4 * np.pi * np.prod(cell))", "return -value / (4 * np.pi * np.sum(cell))"),
+    m("c19-demag-hy", ["C19"], T, "        + tensor.ft_yy * m_fft.ft_y\n        + tensor.ft_yz * m_fft.ft_z\n", "        + tensor.ft_yy * m_fft.ft_y\n        + tensor.ft_xz * m_fft.ft_z\n"),
+    m("c19-demag-vdims-order", ["C19"], T, 'vdims=["xx", "yy", "zz", "xy", "xz", "yz"],\n    ).fftn()\n\n\ndef demag_tensor', 'vdims=["xx", "yy", "zz", "xy", "yz", "xz"],\n    ).fftn()\n\n\ndef demag_tensor'),
+    m("c19-tcd-unnormalised", ["C19"], T, "v0 = of.array[i, j]", "v0 = field.array[i, j]"),
+    m("c19-tcd-bounds", ["C19"], T, "if i + 1 < of.mesh.n[0] and of.valid[i + 1, j]", "if i + 1 <= of.mesh.n[0] and of.valid[i + 1, j]"),
+    m("c19-tcd-triangle-orientation", ["C19"], T, "charge += dfu.bergluescher_angle(v0, v2, v3)", "charge += dfu.bergluescher_angle(v0, v3, v2)"),
+    m("c19-tcd-continuous-axes", ["C19"], T, "return 1 / (4 * np.pi) * of.dot(of.diff(axis1).cross(of.diff(axis2)))", "return 1 / (4 * np.pi) * of.dot(of.diff(axis2).cross(of.diff(axis1)))"),
+    m("c19-tcd-accepts-3d", ["C19"], T, "    if field.mesh.region.ndim != 2:\n        raise ValueError(\n            \"The topological charge density", "    if field.mesh.region.ndim < 2:\n        raise ValueError(\n            \"The topological charge density"),
+    m("c19-emergent-cyclic", ["C19"], T, "F2 = field.dot(field.diff(geo_dims[2]).cross(field.diff(geo_dims[0])))", "F2 = field.dot(field.diff(geo_dims[0]).cross(field.diff(geo_dims[2])))"),
+    m("c19-angle-no-clip", ["C19"], T, "angles = np.arccos(np.clip(dot_product, -1.0, 1.0))", "angles = np.arccos(dot_product)"),
+    m("c19-angle-unnormalised", ["C19"], T, "    fo = field.orientation\n", "    fo = field\n"),
+    m("c19-angle-mesh-shrink", ["C19"], T, "    p2 = np.subtract(field.mesh.region.pmax, delta_p)", "    p2 = np.subtract(field.mesh.region.pmax, 0)"),
+    m("c19-angle-slices", ["C19"], T, "            sclices_two.append(slice(1, None))\n            delta_p", "            sclices_two.append(slice(2, None))\n            delta_p"),
+    m("c19-bps-not-cumulative", ["C19"], T, "F_int = F_red.integrate(direction=direction, cumulative=True)", "F_int = F_red.integrate(direction=direction)"),
+    m("c19-bps-raw-field", ["C19"], T, "F_div = emergent_magnetic_field(field.orientation).div", "F_div = emergent_magnetic_field(field).div"),
+    m("c19-bps-hh-sign", ["C19"], T, 'results["bp_number_hh"] = abs(bp_count[bp_count < 0].sum()).item()', 'results["bp_number_hh"] = abs(bp_count[bp_count > 0].sum()).item()'),
+    m("c19-bps-nvdim", ["C19"], T, "    elif field.nvdim != 3:\n        raise ValueError(f\"The field must be 3D vector", "    elif field.nvdim < 3:\n        raise ValueError(f\"The field must be 3D vector"),
+    m("c19-bl-formula", ["C19"], U, "2 * cmath.log(exp_omega).imag / (4 * np.pi)", "cmath.log(exp_omega).imag / (4 * np.pi)"),
+]
